@@ -295,8 +295,9 @@ def add_failures(rng, L, big=False):
             if cyc is not None and not last and rng.random() < 0.25:
                 res.append("build %d" % cyc)
             if (seen == forced or rng.random() < 0.25) and not (last and nb > 1):
-                spec = ("cancel=cb:%d" % (rng.randint(0, 25) if not big else rng.randint(10, 220))) if rng.random() < 0.6 else \
-                       ("cancel=iter:%d" % (rng.randint(0, 20) if not big else rng.randint(3, 80)))
+                # where exactly the cancellation is delivered is decided by place_cancels (calibrated on the real engine so that
+                # the cancelled build has stored at least one result), except for a few blind ones
+                spec = "cancel=?" if (seen == forced or rng.random() < 0.6) else ("cancel=cb:%d" % rng.randint(0, 25) if rng.random() < 0.5 else "cancel=iter:%d" % rng.randint(0, 20))
                 l = l + ("" if " sched=" in l else " sched=sync") + " " + spec
             seen += 1
         res.append(l)
@@ -304,6 +305,47 @@ def add_failures(rng, L, big=False):
         pos = [i for i, x in enumerate(res) if x.startswith("build ")]
         res.insert(pos[rng.randrange(len(pos))], "build %d" % cyc)
     return res, cyc
+
+
+def stored_in_build(b):
+    """rows of the dump that carry the epoch of this build"""
+    return sum(1 for l in b["db"] if l.startswith("dbrow ") and b["epoch"] is not None and int(l.split(" ")[5]) == b["epoch"])
+
+
+def place_cancels(rng, drv, hist, name):
+    """Replace every `cancel=?` by a cancel=cb:<n> / cancel=iter:<n> that, on the real engine, is delivered after at least one
+    task of that build has completed AND been stored but before the build is over (so the cancelled build commits results:
+    the interesting case for the epoch write).  Calibrated build by build, earlier cancellations already in place."""
+    d = os.path.join(RUN, name + "_cal")
+    hist = list(hist)
+    while True:
+        todo = [i for i, l in enumerate(hist) if l.endswith(" cancel=?")]
+        if not todo:
+            break
+        i = todo[0]
+        base = hist[i][:-len(" cancel=?")]
+        rc, out, err, sp, tp = enginelib.run_impl(drv, ["db 1"] + hist[:i] + [base], d, name="cal")
+        bs = [b for b in enginelib.split_builds(out) if b["key"] is not None]
+        chosen = None
+        if rc == 0 and bs:
+            types = [l.split(" ")[0] for l in bs[-1]["events"]]
+            comp = [p for p, t in enumerate(types) if t == "complete"]
+            if len(comp) >= 2:
+                cbpos = [p for p, t in enumerate(types) if t in ("start", "prior", "provide", "avail")]
+                cands = [j for j, p in enumerate(cbpos) if comp[0] < p < comp[-1]]
+                rng.shuffle(cands)
+                specs = ["cancel=cb:%d" % j for j in cands[:4]]
+                if rng.random() < 0.4:
+                    specs = ["cancel=iter:%d" % rng.randint(2, 40) for _ in range(2)] + specs
+                for spec in specs:
+                    rc2, out2, err2, sp2, tp2 = enginelib.run_impl(drv, ["db 1"] + hist[:i] + [base + " " + spec], d, name="cal")
+                    b2 = [b for b in enginelib.split_builds(out2) if b["key"] is not None]
+                    if rc2 == 0 and b2 and (b2[-1]["result"] or "").endswith(" cancelled") and stored_in_build(b2[-1]) >= 1:
+                        chosen = spec
+                        break
+        hist[i] = base + (" " + chosen if chosen else "")
+    shutil.rmtree(d, ignore_errors=True)
+    return hist
 
 
 def build_indices(lines):
@@ -946,13 +988,14 @@ def run(chk):
     budget = chk.n(480, 10**9)          # kill points in the quick tier
     hists = [("big%d" % i, gen_hist(rng, big=True, sched=sched if i % 2 else None)) for i in range(n_big)]
     hists += [("h%d" % i, gen_hist(rng, sched=sched if i % 2 else None)) for i in range(n_small)]
+    hists = [(name, place_cancels(rng, drv, hist, name)) for name, hist in hists]
     wide = [("wide%d" % i, gen_wide(rng)) for i in range(chk.n(1, 2))]
     targets = []
     for name, hist in hists:
         nb = len(build_indices(hist))
         blines = [l for l in hist if l.startswith("build ")]
         cyc = max(int(l.split(" ")[1]) for l in hist if l.startswith("rule ")) - 1
-        failing = [i for i, l in enumerate(blines) if is_cancel_line(l)][:1] + [i for i, l in enumerate(blines) if l == "build %d" % cyc][:1]
+        failing = [i for i, l in enumerate(blines) if is_cancel_line(l)][:2] + [i for i, l in enumerate(blines) if l == "build %d" % cyc][:1]
         after_failing = [i + 1 for i in failing if i + 1 < nb][:1]
         if chk.quick():
             bis = sorted(set([0, nb - 1] + failing + after_failing + ([rng.randrange(nb)] if nb > 2 and not name.startswith("big") else [])))
@@ -969,7 +1012,8 @@ def run(chk):
         if t.prepare():
             usable.append(t)
     nfail = dict(cancelled_builds=sum(1 for n_, h in hists for l in h if is_cancel_line(l)),
-                 killed_builds_cancelled_or_cycle=sum(1 for t in usable if aborted(t.ref_build)))
+                 killed_builds_cancelled_or_cycle=sum(1 for t in usable if aborted(t.ref_build)),
+                 killed_builds_cancelled_with_stored_results=sum(1 for t in usable if (t.ref_build["result"] or "").endswith(" cancelled") and stored_in_build(t.ref_build) >= 1))
     stats = dict(uncrashed_builds_checked_one_process_each=chained, failures=nfail, targets=len(usable), unchanged_or_unusable=len(targets) - len(usable), kill_points=0, total_calls=0, syscalls={}, pre=0, post=0, other=0,
                  multi_page_commits=0, max_db_writes_in_one_commit=0, journal_left_behind=0)
     if not usable or all(t.total == 0 for t in usable):
